@@ -272,6 +272,68 @@ Proof.
   - destruct (step s l); [|exact I]. apply IH. intros Hin. apply Hn. right. exact Hin.
 Qed.
 
+(** ** boolean checkers for the decidable trace premises (used by the examples) *)
+
+Definition wf_okb (s : state) (l : label) : bool :=
+  match l with
+  | Invoke _ (OUnlock L) => is_held (lk s L)
+  | _ => true
+  end.
+
+Definition fault_freeb (s : state) (l : label) : bool :=
+  match l with
+  | StCreate _ f | StDelete _ f | StCas _ f => negb (faulty f)
+  | _ => true
+  end.
+
+Fixpoint respectsb (g : state -> label -> bool) (s : state) (tr : list label) : bool :=
+  match tr with
+  | [] => true
+  | l :: tr' => g s l && match step s l with Some s' => respectsb g s' tr' | None => true end
+  end.
+
+Lemma respectsb_sound : forall (g : state -> label -> Prop) (gb : state -> label -> bool),
+  (forall s l, gb s l = true -> g s l) ->
+  forall tr s, respectsb gb s tr = true -> respects g s tr.
+Proof.
+  intros g gb Hg. induction tr as [|l tr IH]; intros s H; cbn in *; [exact I|].
+  apply andb_true_iff in H. destruct H as [H1 H2]. split; [apply Hg; exact H1|].
+  destruct (step s l); [apply IH; exact H2|exact I].
+Qed.
+
+Lemma wf_okb_sound : forall s l, wf_okb s l = true -> wf_ok s l.
+Proof.
+  intros s l H. destruct l; cbn in *; auto. destruct o; auto.
+  unfold is_held in H. destruct (held (lk s L)); congruence.
+Qed.
+
+Lemma fault_freeb_sound : forall s l, fault_freeb s l = true -> fault_free s l.
+Proof. intros s l H. destruct l; cbn in *; auto; destruct (faulty f); cbn in H; congruence. Qed.
+
+Lemma wf_programs_b : forall lp tr, respectsb wf_okb (init lp) tr = true -> wf_programs lp tr.
+Proof. intros lp tr. apply respectsb_sound. exact wf_okb_sound. Qed.
+
+Lemma no_faults_b : forall lp tr, respectsb fault_freeb (init lp) tr = true -> no_faults lp tr.
+Proof. intros lp tr. apply respectsb_sound. exact fault_freeb_sound. Qed.
+
+Lemma respectsb_complete_wf : forall tr s, respects wf_ok s tr -> respectsb wf_okb s tr = true.
+Proof.
+  induction tr as [|l tr IH]; intros s H; cbn in *; [reflexivity|].
+  destruct H as [H1 H2]. apply andb_true_iff. split.
+  - destruct l; cbn in *; auto. destruct o; auto. unfold is_held. destruct (held (lk s L)); congruence.
+  - destruct (step s l); [apply IH; exact H2|reflexivity].
+Qed.
+
+Lemma respects_app_intro : forall g tr1 tr2 s,
+  respects g s tr1 -> (forall s1, run s tr1 = Some s1 -> respects g s1 tr2) ->
+  respects g s (tr1 ++ tr2).
+Proof.
+  induction tr1 as [|l tr1 IH]; intros tr2 s H1 H2; cbn in *.
+  - apply H2. reflexivity.
+  - destruct H1 as [Ha Hb]. split; [exact Ha|].
+    destruct (step s l) as [s0|]; [|exact I]. apply IH; [exact Hb|exact H2].
+Qed.
+
 (** ** why [wf_programs] is needed: Unlock on a Locker that is still acquiring deletes a foreign record *)
 
 Definition misuse_trace : list label :=
@@ -297,8 +359,6 @@ Proof.
   exists s. split; [reflexivity|]. split; [|split].
   - apply no_expire_respected. unfold misuse_trace. cbn.
     intros H. repeat (destruct H as [H|H]; [discriminate H|]). exact H.
-  - intros HW. unfold wf_programs, misuse_trace in HW. cbn in HW.
-    repeat match type of HW with _ /\ _ => destruct HW as [? HW] end.
-    match goal with H : None <> None |- _ => apply H; reflexivity end.
+  - intros HW. apply respectsb_complete_wf in HW. vm_compute in HW. discriminate.
   - vm_compute in Hr. injection Hr as <-. vm_compute. reflexivity.
 Qed.
